@@ -369,6 +369,26 @@ def spliceSpec (fs : FS) : Nat → List Item → List Item
   | 0, .inc n :: rest => .inc n :: spliceSpec fs 0 rest
   | d + 1, .inc n :: rest => .inc n :: (spliceSpec fs d ((fsGet fs n).getD []) ++ spliceSpec fs (d + 1) rest)
 
+/-- SHELXL's reading of include lines, as a relation: `+name` is followed by the expansion of the file's content -/
+inductive Expands (fs : FS) : List Item → List Item → Prop where
+  | nil : Expands fs [] []
+  | line (t : Nat) {rest out : List Item} : Expands fs rest out → Expands fs (.line t :: rest) (.line t :: out)
+  | inc (n : String) {rest o1 o2 : List Item} : Expands fs ((fsGet fs n).getD []) o1 → Expands fs rest o2 →
+      Expands fs (.inc n :: rest) (.inc n :: (o1 ++ o2))
+
+def incNames : List Item → List String
+  | [] => []
+  | .inc n :: r => n :: incNames r
+  | .line _ :: r => incNames r
+
+/-- the nesting bound `d` of the executable specification suffices: no include line is left unexpanded -/
+def deepOK (fs : FS) : Nat → List Item → Bool
+  | _, [] => true
+  | d, .line _ :: rest => deepOK fs d rest
+  | 0, .inc n :: rest => ((fsGet fs n).getD []).isEmpty && deepOK fs 0 rest
+  | d + 1, .inc n :: rest => deepOK fs d ((fsGet fs n).getD []) && deepOK fs (d + 1) rest
+
+
 /-! ### derived views (atoms.py), as functions of the observed atom list plus the element of each atom -/
 
 structure ViewAtom where
